@@ -6,7 +6,7 @@ import sys
 import numpy as np
 
 from ..common import Ctx, b2f, close, driver_batch, f2b, fvec
-from . import c03_ext, c03_r3
+from . import c03_ext, c03_r3, c03_r4
 
 LEVEL = "proof"
 LEVEL_TEXT = (
@@ -125,7 +125,14 @@ RULE = (
     "HyperbolicRTransform; method values 0.01 .. 100 x 1e16 and exactly 1e16 with trimming on), parameters scaled by 2^-100 .. 2^100, "
     "intervals rmax - rmin = 2^-26 rmin, HandyMod 2^-13 .. 2^40 off its bound, points scale x 10^-14 .. 10^3, every method as the first call on a "
     "fresh b=None object, set_maximum_parameter_b as a public method before / between calls, the returned array overwritten by the caller "
-    "before the call is repeated; all counted non-trivial except the already-set no-op cases"
+    "before the call is repeated; all counted non-trivial except the already-set no-op cases; "
+    "round 4 (c03_r4.py): every method of every class (plain and wrapped) at the ends of the declared domain / codomain, +inf where an "
+    "interval is half-infinite, neighbouring doubles, +-0.0, 5e-324, 1e300, +-1e16, b, the hyperbolic pole, for parameters with the codomain "
+    "below 1, above 1 and straddling 1 (IEEE special values compared exactly; points outside the closed declared intervals are not inputs); "
+    "argument shapes (1,), (2,), (1,2), (2,1), (1,3), (3,2), (2,1,3), (1,1), a transposed view, and such a shape as the first grid of a b=None "
+    "object; oracle-only parts (reference-free): parameters of kind np.float64 / np.float32 / np.int64 / np.int32 / int, integer-valued and not, "
+    "trim_inf as bool / np.bool_ / int, b taken from int / bool / float32 / read-only / strided / negative-stride / Fortran / 0-d grids, every "
+    "spelling of constructor and method call, one view of a larger array for every method in turn, calls that raise followed by every method"
 )
 TRUSTED_BASE = [
     "Lean 4.33 kernel; Mathlib; axioms propext, Classical.choice, Quot.sound only (audited per theorem)",
@@ -261,106 +268,118 @@ def _line(op, cls, meth, trim, size, ps, x):
 # ----------------------------------------------------------------------------
 # correspondence
 # ----------------------------------------------------------------------------
+def _corr_cases_one(ctx, mod, cls, rng, cases):
+    """the implementation's answers for one random parameter set of `cls` (all 8 methods, plain or wrapped)"""
+    ps, trim = gen_params(cls, rng)
+    T = construct(cls, ps, trim)
+    npts = rng.choice([1, 2, 3, 4])
+    xs = interior_points(cls, ps, rng, npts)
+    use_ends = rng.random() < 0.25
+    if use_ends:
+        xs = xs + end_points(cls, ps)
+    wrap = rng.random() < 0.3
+    TT = mod.InverseRTransform(T) if wrap else T
+    # arguments in the codomain: images of the interior points (computed by the implementation)
+    with np.errstate(all="ignore"):
+        rs = _vals(T.transform(np.array(xs)))
+    for meth in METHODS:
+        fwd = (meth in FWD) != wrap
+        arg = xs if fwd else rs
+        with np.errstate(all="ignore"):
+            tag, v = _impl_call(TT, meth, np.array(arg, dtype=float))
+        cases.append(("evalinv" if wrap else "eval", cls, ps, trim, meth, arg, (tag, None if v is None else _vals(v)),
+                      dict(ends=use_ends, nint=npts)))
+    # scalar arguments (np.float64 and Python float) must be accepted and agree with the array branch
+    meth = rng.choice(METHODS)
+    fwd = (meth in FWD) != wrap
+    a0 = (xs if fwd else rs)[0]
+    with np.errstate(all="ignore"):
+        ta, va = _impl_call(TT, meth, np.array([a0]))
+        for kind, sc in (("np.float64", np.float64(a0)), ("float", float(a0))):
+            try:
+                ts, vs = _impl_call(TT, meth, sc)
+            except Exception as e:  # noqa: BLE001 - a valid scalar argument must be accepted
+                ts, vs = type(e).__name__, None
+            ctx.count([cls, meth, ps, trim, kind, a0], nontrivial=False, tag="scalar-vs-array")
+            if ts != ta or (ta == "ok" and not close(_vals(vs)[0], _vals(va)[0], rtol=1e-12, atol=1e-13)):
+                ctx.fail("corr", f"scalar:{cls}.{meth}", f"{cls}{tuple(ps)}.{meth}: {kind} argument {a0!r} gives "
+                         f"{ts} {None if vs is None else _vals(vs)}, one-element array gives {ta} {None if va is None else _vals(va)}",
+                         witness={"class": cls, "params": ps, "trim": trim, "method": meth, "x": a0})
+
+
 def corr(ctx: Ctx):
     rng = ctx.rng
     mod = rt()
-    nsets = ctx.n(180, 4500)
-    cases = []      # (op, cls, ps, trim, meth, xs, impl-result, flags)
-    for cls in CLASSES:
-        for i in range(nsets):
-            ps, trim = gen_params(cls, rng)
-            T = construct(cls, ps, trim)
-            npts = rng.choice([1, 2, 3, 4])
-            xs = interior_points(cls, ps, rng, npts)
-            use_ends = rng.random() < 0.25
-            if use_ends:
-                xs = xs + end_points(cls, ps)
-            wrap = rng.random() < 0.3
-            TT = mod.InverseRTransform(T) if wrap else T
-            # arguments in the codomain: images of the interior points (computed by the implementation)
-            with np.errstate(all="ignore"):
-                rs = _vals(T.transform(np.array(xs)))
-            for meth in METHODS:
-                fwd = (meth in FWD) != wrap
-                arg = xs if fwd else rs
-                with np.errstate(all="ignore"):
-                    tag, v = _impl_call(TT, meth, np.array(arg, dtype=float))
-                cases.append(("evalinv" if wrap else "eval", cls, ps, trim, meth, arg, (tag, None if v is None else _vals(v)),
-                              dict(ends=use_ends, nint=npts)))
-            # scalar arguments (np.float64 and Python float) must be accepted and agree with the array branch
-            meth = rng.choice(METHODS)
-            fwd = (meth in FWD) != wrap
-            a0 = (xs if fwd else rs)[0]
-            with np.errstate(all="ignore"):
-                ta, va = _impl_call(TT, meth, np.array([a0]))
-                for kind, sc in (("np.float64", np.float64(a0)), ("float", float(a0))):
-                    try:
-                        ts, vs = _impl_call(TT, meth, sc)
-                    except Exception as e:  # noqa: BLE001 - a valid scalar argument must be accepted
-                        ts, vs = type(e).__name__, None
-                    ctx.count([cls, meth, ps, trim, kind, a0], nontrivial=False, tag="scalar-vs-array")
-                    if ts != ta or (ta == "ok" and not close(_vals(vs)[0], _vals(va)[0], rtol=1e-12, atol=1e-13)):
-                        ctx.fail("corr", f"scalar:{cls}.{meth}", f"{cls}{tuple(ps)}.{meth}: {kind} argument {a0!r} gives "
-                                 f"{ts} {None if vs is None else _vals(vs)}, one-element array gives {ta} {None if va is None else _vals(va)}",
-                                 witness={"class": cls, "params": ps, "trim": trim, "method": meth, "x": a0})
-    # one driver batch
-    lines, index = [], []
-    for ci, (op, cls, ps, trim, meth, arg, res, fl) in enumerate(cases):
-        for x in arg:
-            lines.append(_line(op, cls, meth, trim, len(arg), ps, x))
-            index.append(ci)
-    answers = driver_batch(lines)
-    per_case = {}
-    for ci, a in zip(index, answers):
-        per_case.setdefault(ci, []).append(a)
-    for ci, (op, cls, ps, trim, meth, arg, (tag, vals), fl) in enumerate(cases):
-        ans = per_case[ci]
-        e = exponent_of(cls, ps)
-        for j, (x, a) in enumerate(zip(arg, ans)):
-            is_end = fl["ends"] and j >= fl["nint"]
-            toks = a.split()
-            mval = b2f(toks[1]) if toks[0] == "ok" and len(toks) == 2 else None
-            trimmed = mval is not None and abs(mval) == 1e16
-            nontriv = bool((e is not None and (e != int(e) or e >= 3)) or is_end or trimmed
-                           or (e is None and fl["nint"] >= 2 and cls != "IdentityRTransform"))
-            ctx.count([op, cls, meth, [float(p) for p in ps], trim, x], nontrivial=nontriv,
-                      tag=f"{cls}:{'inv:' if op == 'evalinv' else ''}{'end' if is_end else 'int'}")
-            # conditioning: pow of two libraries may differ by an ulp, which decides inf/nan/finite exactly at a pole
-            exact_end = cls == "KnowlesRTransform" and meth == ("inverse" if op == "evalinv" else "transform")
-            if is_end and cls in ("KnowlesRTransform", "HandyModRTransform", "HandyRTransform") and e != int(e) and not exact_end:
-                ctx.tagc("end-point-noninteger-exponent-not-compared")
-                continue
-            if tag == "zero-division-error":
-                # np.any(d1 == 0): the call raises as soon as one element has a vanishing first derivative
-                ok = tag in ans
-                iv = tag
-            elif tag != "ok":
-                ok = a == tag
-                iv = tag
-            else:
-                iv = vals[j]
-                # values in the x-domain (`inverse`) come out of a cancellation of O(1) terms
-                atol = 1e-12 if meth == ("transform" if op == "evalinv" else "inverse") else 0.0
-                ok = mval is not None and (close(iv, mval, rtol=1e-10, atol=atol) or (is_end and _both_huge(iv, mval)))
-            if not ok and tag == "ok" and mval is not None and not is_end:
-                ok = _within_rounding_noise(ctx, mod, op, cls, ps, trim, meth, x, iv, mval)
-                if not ok and _noise_verdict(cls, ps, trim, op == "evalinv", meth, x, iv, mval) == "ill":
-                    # both double evaluations are off the 40-digit value (residue of an exact cancellation, e.g. the third
-                    # derivative of the inverse Handy map with m = 0.5 vanishes at x = 0): nothing to compare
-                    ctx.tagc("ill-conditioned-point-not-compared")
-                    ok = True
-            if not ok:
-                ctx.fail("corr", f"{op}:{cls}.{meth}", f"{'InverseRTransform of ' if op == 'evalinv' else ''}{cls}{tuple(ps)} trim={trim} "
-                         f"{meth}({x!r}) [array of {len(arg)}]: implementation {iv!r}, generated model {a if mval is None else mval!r}",
-                         witness={"class": cls, "params": ps, "trim": trim, "method": meth, "x": x, "wrapped": op == "evalinv",
-                                  "impl": iv, "model": a if mval is None else mval})
+
+    def main():
+        nsets = ctx.n(180, 4500)
+        cases = []      # (op, cls, ps, trim, meth, xs, impl-result, flags)
+        for cls in CLASSES:
+            for i in range(nsets):
+                try:
+                    _corr_cases_one(ctx, mod, cls, rng, cases)
+                except Exception as e:  # noqa: BLE001 - the library raised on admissible parameters / points of the domain
+                    ctx.fail("corr", f"eval:{cls}:raises", f"{cls}: building the cases raised {type(e).__name__}: {str(e)[:200]}")
+        # one driver batch
+        lines, index = [], []
+        for ci, (op, cls, ps, trim, meth, arg, res, fl) in enumerate(cases):
+            for x in arg:
+                lines.append(_line(op, cls, meth, trim, len(arg), ps, x))
+                index.append(ci)
+        answers = driver_batch(lines)
+        per_case = {}
+        for ci, a in zip(index, answers):
+            per_case.setdefault(ci, []).append(a)
+        for ci, (op, cls, ps, trim, meth, arg, (tag, vals), fl) in enumerate(cases):
+            ans = per_case[ci]
+            e = exponent_of(cls, ps)
+            for j, (x, a) in enumerate(zip(arg, ans)):
+                is_end = fl["ends"] and j >= fl["nint"]
+                toks = a.split()
+                mval = b2f(toks[1]) if toks[0] == "ok" and len(toks) == 2 else None
+                trimmed = mval is not None and abs(mval) == 1e16
+                nontriv = bool((e is not None and (e != int(e) or e >= 3)) or is_end or trimmed
+                               or (e is None and fl["nint"] >= 2 and cls != "IdentityRTransform"))
+                ctx.count([op, cls, meth, [float(p) for p in ps], trim, x], nontrivial=nontriv,
+                          tag=f"{cls}:{'inv:' if op == 'evalinv' else ''}{'end' if is_end else 'int'}")
+                # conditioning: pow of two libraries may differ by an ulp, which decides inf/nan/finite exactly at a pole
+                exact_end = cls == "KnowlesRTransform" and meth == ("inverse" if op == "evalinv" else "transform")
+                if is_end and cls in ("KnowlesRTransform", "HandyModRTransform", "HandyRTransform") and e != int(e) and not exact_end:
+                    ctx.tagc("end-point-noninteger-exponent-not-compared")
+                    continue
+                if tag == "zero-division-error":
+                    # np.any(d1 == 0): the call raises as soon as one element has a vanishing first derivative
+                    ok = tag in ans
+                    iv = tag
+                elif tag != "ok":
+                    ok = a == tag
+                    iv = tag
+                else:
+                    iv = vals[j]
+                    # values in the x-domain (`inverse`) come out of a cancellation of O(1) terms
+                    atol = 1e-12 if meth == ("transform" if op == "evalinv" else "inverse") else 0.0
+                    ok = mval is not None and (close(iv, mval, rtol=1e-10, atol=atol) or (is_end and _both_huge(iv, mval)))
+                if not ok and tag == "ok" and mval is not None and not is_end:
+                    ok = _within_rounding_noise(ctx, mod, op, cls, ps, trim, meth, x, iv, mval)
+                    if not ok and _noise_verdict(cls, ps, trim, op == "evalinv", meth, x, iv, mval) == "ill":
+                        # both double evaluations are off the 40-digit value (residue of an exact cancellation, e.g. the third
+                        # derivative of the inverse Handy map with m = 0.5 vanishes at x = 0): nothing to compare
+                        ctx.tagc("ill-conditioned-point-not-compared")
+                        ok = True
+                if not ok:
+                    ctx.fail("corr", f"{op}:{cls}.{meth}", f"{'InverseRTransform of ' if op == 'evalinv' else ''}{cls}{tuple(ps)} trim={trim} "
+                             f"{meth}({x!r}) [array of {len(arg)}]: implementation {iv!r}, generated model {a if mval is None else mval!r}",
+                             witness={"class": cls, "params": ps, "trim": trim, "method": meth, "x": x, "wrapped": op == "evalinv",
+                                      "impl": iv, "model": a if mval is None else mval})
     c03_r3.run_parts([
+        main,
         lambda: _corr_guards(ctx, mod),
         lambda: _corr_round2(ctx, mod),      # before the parts that consult the translator (which raises on source it cannot carry)
         lambda: _corr_scalar_and_convinf(ctx, mod),
         lambda: _corr_inferred_b(ctx, mod),
         lambda: c03_ext.corr_ext(ctx, CLASSES, gen_params, construct, _within_rounding_noise, end_points),
-        lambda: c03_r3.corr_r3(ctx, sys.modules[__name__])])
+        lambda: c03_r3.corr_r3(ctx, sys.modules[__name__]),
+        lambda: c03_r4.corr_r4(ctx, sys.modules[__name__])])
 
 
 def _within_rounding_noise(ctx, mod, op, cls, ps, trim, meth, x, iv, mval):
@@ -623,6 +642,23 @@ got = float(np.asarray(getattr(Tf, meth)(np.array([x])), dtype=float).ravel()[0]
 assert abs(got - num) <= 1e-7 * max(abs(num), 1e-12), f'{{cls}}{{tuple(ps)}}.{{meth}}({{x}}) = {{got}}, numerical derivative of order {{order}} of {{base}} = {{mpmath.nstr(num, 15)}}'
 '''
 
+SNIPPET_RAISES = '''import warnings; warnings.filterwarnings('ignore')
+import numpy as np
+from grid import rtransform as rt
+np.seterr(all='ignore')
+cls, ps, trim, xs = {cls!r}, {ps!r}, {trim!r}, {xs!r}
+kw = dict(trim_inf=trim) if trim is not None else dict()
+try:
+    T = getattr(rt, cls)(*ps, **kw)
+    for m in ('transform', 'deriv', 'deriv2', 'deriv3'):
+        getattr(T, m)(np.array(xs))
+    r = T.transform(np.array(xs))
+    for m in ('inverse', 'deriv_inverse', 'deriv2_inverse', 'deriv3_inverse'):
+        getattr(T, m)(r)
+except Exception as e:
+    raise AssertionError(f'{{cls}}{{tuple(ps)}}: admissible parameters / interior points raise {{type(e).__name__}}: {{e}}')
+'''
+
 SNIPPET_END = '''import warnings; warnings.filterwarnings('ignore')
 import numpy as np
 from grid import rtransform as rt
@@ -724,78 +760,90 @@ def _xs_for(cls, ps, budget):
     return [0.4, 9.0]
 
 
+def _oracle_one(ctx, mod, cls, ps, trim, budget):
+    """the main oracle at one admissible parameter set"""
+    mp = mpmath
+    Tf = construct(cls, ps, trim)        # (the grid holds admissible parameters only: a rejection is a failure, see `oracle`)
+    T = construct_hp(cls, ps, trim)
+    key = f"rtransform.{cls}"
+    xs = _xs_for(cls, ps, budget)
+    sign = -1 if cls == "MultiExpRTransform" else 1
+    prev = None
+    for x in sorted(xs):
+        xm = mp.mpf(x)
+        with np.errstate(all="ignore"):
+            # (1) derivative methods = derivatives of the forward map (numerical differentiation of the
+            #     implementation's own `transform`, run in 40-digit arithmetic)
+            for order, meth in ((1, "deriv"), (2, "deriv2"), (3, "deriv3")):
+                num = mp.diff(lambda y: hp_call(T, "transform", y), xm, order)
+                got = _vals(getattr(Tf, meth)(np.array([x])))[0]
+                tol = _otol(cls, x, 1e-7, 2e3)
+                ctx.count(["oracle", cls, ps, trim, meth, x], nontrivial=True, tag="oracle:near-end" if tol > 1e-7 else "oracle:interior")
+                if not abs(got - num) <= tol * max(abs(num), 1e-12):
+                    ctx.fail("oracle", f"{key}.{meth}", f"{cls}{tuple(ps)} trim={trim}: {meth}({x!r}) = {got!r}, but the order-{order} derivative of "
+                             f"transform there is {mp.nstr(num, 15)}",
+                             witness={"class": cls, "params": ps, "x": x, "method": meth, "got": got, "want": float(num)},
+                             snippet=_snippet(tol, cls=cls, ps=list(ps), trim=trim, meth=meth, x=x, order=order, base="transform"))
+            # (2) round trips, in 40 digits (formulas are exact inverses) and in double precision
+            r = hp_call(T, "transform", xm)
+            back = hp_call(T, "inverse", r)
+            if not abs(back - xm) <= mp.mpf(10) ** -25 * max(1, abs(xm)):
+                ctx.fail("oracle", f"{key}.inverse", f"{cls}{tuple(ps)}: inverse(transform({x})) = {mp.nstr(back, 20)} in 40-digit arithmetic",
+                         witness={"class": cls, "params": ps, "x": x})
+            rf = _vals(Tf.transform(np.array([x])))[0]
+            fwd = hp_call(T, "transform", hp_call(T, "inverse", mp.mpf(rf)))
+            if not abs(fwd - rf) <= mp.mpf(10) ** -25 * max(1, abs(rf)):
+                ctx.fail("oracle", f"{key}.transform", f"{cls}{tuple(ps)}: transform(inverse({rf})) = {mp.nstr(fwd, 20)} in 40-digit arithmetic",
+                         witness={"class": cls, "params": ps, "r": rf})
+            bf = _vals(Tf.inverse(Tf.transform(np.array([x]))))[0]
+            if not close(bf, x, rtol=1e-8, atol=1e-9):
+                ctx.fail("oracle", f"{key}.inverse", f"{cls}{tuple(ps)}: inverse(transform({x})) = {bf!r} in double precision",
+                         witness={"class": cls, "params": ps, "x": x})
+            # (3) inverse-derivative methods = derivatives of the inverse map
+            tol = _otol(cls, x, 1e-6, 2e4)
+            for order, meth in ((1, "deriv_inverse"), (2, "deriv2_inverse"), (3, "deriv3_inverse")) if tol < 0.1 else ():
+                num = mp.diff(lambda y: hp_call(T, "inverse", y), mp.mpf(rf), order)
+                got = _vals(getattr(Tf, meth)(np.array([rf])))[0]
+                gi = _vals(getattr(mod.InverseRTransform(Tf), meth.replace("_inverse", ""))(np.array([rf])))[0]
+                for who, g in ((f"{cls}.{meth}", got), (f"InverseRTransform({cls}).{meth.replace('_inverse', '')}", gi)):
+                    if not abs(g - num) <= tol * max(abs(num), 1e-12):
+                        ctx.fail("oracle", f"{key}.{meth}", f"{who}({rf}) with parameters {tuple(ps)} = {g!r}, but the order-{order} "
+                                 f"derivative of inverse there is {mp.nstr(num, 15)}",
+                                 witness={"class": cls, "params": ps, "r": rf, "method": meth, "got": g, "want": float(num)},
+                                 snippet=_snippet(max(tol, 1e-6), cls=cls, ps=list(ps), trim=trim, meth=meth, x=rf, order=order, base="inverse"))
+            # (4) monotone on the domain of use
+            if prev is not None and not (sign * (r - prev) > 0):
+                ctx.fail("oracle", f"{key}.monotone", f"{cls}{tuple(ps)}: transform is not strictly {'de' if sign < 0 else 'in'}creasing "
+                         f"between consecutive grid points up to {x}", witness={"class": cls, "params": ps, "x": x})
+            prev = r
+    _oracle_end_points(ctx, cls, ps, trim, Tf, T)
+
+
 def oracle(ctx: Ctx, budget: str):
     rng = ctx.rng
     mod = rt()
-    mp = mpmath
-    for cls in CLASSES:
-        for ps, trim in _grid(cls, budget, rng):
-            try:
-                Tf = construct(cls, ps, trim)
-                T = construct_hp(cls, ps, trim)
-            except ValueError:
-                continue
-            key = f"rtransform.{cls}"
-            xs = _xs_for(cls, ps, budget)
-            sign = -1 if cls == "MultiExpRTransform" else 1
-            prev = None
-            for x in sorted(xs):
-                xm = mp.mpf(x)
-                with np.errstate(all="ignore"):
-                    # (1) derivative methods = derivatives of the forward map (numerical differentiation of the
-                    #     implementation's own `transform`, run in 40-digit arithmetic)
-                    for order, meth in ((1, "deriv"), (2, "deriv2"), (3, "deriv3")):
-                        num = mp.diff(lambda y: hp_call(T, "transform", y), xm, order)
-                        got = _vals(getattr(Tf, meth)(np.array([x])))[0]
-                        tol = _otol(cls, x, 1e-7, 2e3)
-                        ctx.count(["oracle", cls, ps, trim, meth, x], nontrivial=True, tag="oracle:near-end" if tol > 1e-7 else "oracle:interior")
-                        if not abs(got - num) <= tol * max(abs(num), 1e-12):
-                            ctx.fail("oracle", f"{key}.{meth}", f"{cls}{tuple(ps)} trim={trim}: {meth}({x!r}) = {got!r}, but the order-{order} derivative of "
-                                     f"transform there is {mp.nstr(num, 15)}",
-                                     witness={"class": cls, "params": ps, "x": x, "method": meth, "got": got, "want": float(num)},
-                                     snippet=_snippet(tol, cls=cls, ps=list(ps), trim=trim, meth=meth, x=x, order=order, base="transform"))
-                    # (2) round trips, in 40 digits (formulas are exact inverses) and in double precision
-                    r = hp_call(T, "transform", xm)
-                    back = hp_call(T, "inverse", r)
-                    if not abs(back - xm) <= mp.mpf(10) ** -25 * max(1, abs(xm)):
-                        ctx.fail("oracle", f"{key}.inverse", f"{cls}{tuple(ps)}: inverse(transform({x})) = {mp.nstr(back, 20)} in 40-digit arithmetic",
-                                 witness={"class": cls, "params": ps, "x": x})
-                    rf = _vals(Tf.transform(np.array([x])))[0]
-                    fwd = hp_call(T, "transform", hp_call(T, "inverse", mp.mpf(rf)))
-                    if not abs(fwd - rf) <= mp.mpf(10) ** -25 * max(1, abs(rf)):
-                        ctx.fail("oracle", f"{key}.transform", f"{cls}{tuple(ps)}: transform(inverse({rf})) = {mp.nstr(fwd, 20)} in 40-digit arithmetic",
-                                 witness={"class": cls, "params": ps, "r": rf})
-                    bf = _vals(Tf.inverse(Tf.transform(np.array([x]))))[0]
-                    if not close(bf, x, rtol=1e-8, atol=1e-9):
-                        ctx.fail("oracle", f"{key}.inverse", f"{cls}{tuple(ps)}: inverse(transform({x})) = {bf!r} in double precision",
-                                 witness={"class": cls, "params": ps, "x": x})
-                    # (3) inverse-derivative methods = derivatives of the inverse map
-                    tol = _otol(cls, x, 1e-6, 2e4)
-                    for order, meth in ((1, "deriv_inverse"), (2, "deriv2_inverse"), (3, "deriv3_inverse")) if tol < 0.1 else ():
-                        num = mp.diff(lambda y: hp_call(T, "inverse", y), mp.mpf(rf), order)
-                        got = _vals(getattr(Tf, meth)(np.array([rf])))[0]
-                        gi = _vals(getattr(mod.InverseRTransform(Tf), meth.replace("_inverse", ""))(np.array([rf])))[0]
-                        for who, g in ((f"{cls}.{meth}", got), (f"InverseRTransform({cls}).{meth.replace('_inverse', '')}", gi)):
-                            if not abs(g - num) <= tol * max(abs(num), 1e-12):
-                                ctx.fail("oracle", f"{key}.{meth}", f"{who}({rf}) with parameters {tuple(ps)} = {g!r}, but the order-{order} "
-                                         f"derivative of inverse there is {mp.nstr(num, 15)}",
-                                         witness={"class": cls, "params": ps, "r": rf, "method": meth, "got": g, "want": float(num)},
-                                         snippet=_snippet(max(tol, 1e-6), cls=cls, ps=list(ps), trim=trim, meth=meth, x=rf, order=order, base="inverse"))
-                    # (4) monotone on the domain of use
-                    if prev is not None and not (sign * (r - prev) > 0):
-                        ctx.fail("oracle", f"{key}.monotone", f"{cls}{tuple(ps)}: transform is not strictly {'de' if sign < 0 else 'in'}creasing "
-                                 f"between consecutive grid points up to {x}", witness={"class": cls, "params": ps, "x": x})
-                    prev = r
-            _oracle_end_points(ctx, cls, ps, trim, Tf, T)
+
+    def main():
+        for cls in CLASSES:
+            for ps, trim in _grid(cls, budget, rng):
+                try:
+                    _oracle_one(ctx, mod, cls, ps, trim, budget)
+                except Exception as e:  # noqa: BLE001 - the library raised on admissible parameters / interior points
+                    ctx.fail("oracle", f"rtransform.{cls}:raises", f"{cls}{tuple(ps)} trim={trim}: evaluating the property (methods at interior "
+                             f"points, round trips, end points) raised {type(e).__name__}: {str(e)[:200]}",
+                             witness={"class": cls, "params": ps, "trim": trim, "exception": type(e).__name__},
+                             snippet=SNIPPET_RAISES.format(cls=cls, ps=list(ps), trim=(trim if cls in HAS_TRIM else None), xs=_xs_for(cls, ps, budget)))
     # every part runs even when an earlier one raised (a changed tree may reject what a probe constructs); the first
     # exception is re-raised at the end, so the runner still reports the crash
     c03_r3.run_parts([
+        main,
         lambda: _oracle_knowles_end_point(ctx, mod, budget),
         lambda: _oracle_scalar_arguments(ctx, mod),
         lambda: _oracle_excluded_parameters(ctx, mod),
         lambda: _oracle_round2(ctx, mod, budget),
         lambda: c03_ext.oracle_ext(ctx, budget, CLASSES, gen_params, construct, end_points),
-        lambda: c03_r3.oracle_r3(ctx, budget, sys.modules[__name__])])
+        lambda: c03_r3.oracle_r3(ctx, budget, sys.modules[__name__]),
+        lambda: c03_r4.oracle_r4(ctx, budget, sys.modules[__name__])])
 
 
 def _oracle_end_points(ctx, cls, ps, trim, Tf, T):
